@@ -225,6 +225,25 @@ Section M.
     Definition sort_rows (l : list row) : list row := fold_right insert_row [] l.
 
     Definition build_table (p : ptf) : list row := sort_rows (build_rows p).
+
+    (* well-formed PTF content (parsed rows): three increasing masses, no level twice in a block, at least one row,
+       every rate of climb / descent beyond the ROCD tolerance after conversion *)
+    Fixpoint distinct (l : list (T N)) : bool :=
+      match l with [] => true | a :: r => negb (existsb (fun b => a =? b) r) && distinct r end.
+    Definition nonempty {A} (l : list A) : bool := match l with [] => false | _ => true end.
+    Definition ptf_shape (p : ptf) : bool :=
+      (p_low p <? p_nom p) && (p_nom p <? p_high p)
+      && distinct (map pc_fl (p_climb p)) && distinct (map pr_fl (p_cruise p)) && distinct (map pd_fl (p_descent p))
+      && (nonempty (p_climb p) || nonempty (p_cruise p) || nonempty (p_descent p)).
+    Definition wf_ptf (p : ptf) : bool :=
+      ptf_shape p
+      && forallb (fun c => (tol <? pc_lo c * FPM) && (tol <? pc_nom c * FPM) && (tol <? pc_hi c * FPM)) (p_climb p)
+      && forallb (fun d => (- pd_rocd d) * FPM <? - tol) (p_descent p).
+    (* what BADA writes and PTFData.load reads: rates are non-negative numbers, 0 fpm allowed in the climb block *)
+    Definition bada_ptf (p : ptf) : bool :=
+      ptf_shape p
+      && forallb (fun c => (zero <=? pc_lo c) && (zero <=? pc_nom c) && (zero <=? pc_hi c)) (p_climb p)
+      && forallb (fun d => zero <? pd_rocd d) (p_descent p).
   End Build.
 
   (* ---- case runner for the correspondence ---- *)
